@@ -455,6 +455,8 @@ H("conn_close_under_congestion_native", ["C08", "C12"], "replay-only", "connecti
   [("queued", "bool")], 4, [], ["Connection::close", "Connection::poll_transmit"], "native replay body of E2 slice query e2_poll_transmit_close_not_congestion_blocked_slice; demonstration for finding 14")
 H("conn_first_packet_close_native", ["C08"], "replay-only", "connection::first_packet_close_native",
   [("x", "u8")], 4, [], ["Connection::handle_first_packet", "Connection::process_decrypted_packet", "Connection::handle_timeout"], "native replay body of E2 query e2_first_packet_close_gets_drain_timer; demonstration for finding 15")
+H("conn_new_idle_timeout_native", ["C08"], "replay-only", "connection::new_idle_timeout_native",
+  [("ms", "u16")], 4, [], ["Connection::new", "Connection::reset_idle_timeout"], "native replay body of E2 query e2_connection_new_idle_timeout")
 H("conn_path_response_native", ["C15", "C07"], "replay-only", "connection::path_response_native",
   [("mode", "u8")], 4, [], ["Connection::handle_event", "Connection::process_payload"], "native replay body of E2 slice query e2_path_response_slice")
 H("conn_detect_lost_native", ["C12"], "replay-only", "connection::detect_lost_native",
@@ -463,6 +465,10 @@ H("streams_retransmit_all_0rtt_native", ["C17", "C01"], "replay-only", "connecti
   [("len_", "u8"), ("partial", "bool")], 4, [], ["StreamsState::retransmit_all_for_0rtt", "StreamsState::write_stream_frames", "SendStream::finish"], "native replay body of E2 slice query e2_retransmit_all_for_0rtt_iteration")
 H("streams_recvstream_received_reset_native", ["C11"], "replay-only", "connection::streams::recvstream_received_reset_native",
   [("mode", "u8")], 4, [], ["RecvStream::received_reset", "RecvStream::stop", "RecvStream::read", "StreamsState::received_reset"], "native replay body of E2 query e2_recvstream_received_reset")
+H("streams_retransmit_fin_native", ["C01"], "replay-only", "connection::streams::retransmit_fin_native",
+  [("mode", "u8")], 4, [], ["StreamsState::retransmit", "StreamsState::write_stream_frames", "SendStream::finish"], "native replay body of E2 query e2_streams_retransmit")
+H("send_write_chunks_native", ["C05"], "replay-only", "connection::streams::send_write_chunks_native",
+  [("credit", "u8"), ("chunk", "u8"), ("n", "u8")], 4, [], ["SendStream::write_chunks", "Send::write", "SendBuffer::write"], "native replay body of E2 slice query e2_send_write_loop_iteration")
 H("streams_stop_sending_native", ["C11"], "replay-only", "connection::streams::stop_sending_native",
   [("state", "u8")], 4, [], ["StreamsState::received_stop_sending", "Send::try_stop", "SendStream::write"], "native replay body of E2 query e2_received_stop_sending")
 H("streams_reset_acked_native", ["C11"], "replay-only", "connection::streams::reset_acked_native",
